@@ -106,8 +106,8 @@ func defaultConfig(tier string) Config {
 }
 
 func printReport(r *HarnessReport, verbose bool) {
-	fmt.Printf("== %s: paths=%d(+%d infeasible) steps=%d obligations=%d discharged=%d violations=%d unknown=%d unwind=%d merged=%d wall=%.1fs solver=%.1fs queries=%d\n",
-		r.Name, r.Paths, r.InfeasiblePaths, r.Steps, r.Obligations, r.Discharged, len(r.Violations), r.Unknowns, r.UnwindHits, r.Merged, r.Wall.Seconds(), r.SolverStats.Time.Seconds(), r.SolverStats.Queries)
+	fmt.Printf("== %s: paths=%d(+%d infeasible) steps=%d obligations=%d discharged=%d violations=%d unknown=%d unwind=%d merged=%d wall=%.1fs solver=%.1fs send=%.1fs bytes=%dK getvalue=%d queries=%d\n",
+		r.Name, r.Paths, r.InfeasiblePaths, r.Steps, r.Obligations, r.Discharged, len(r.Violations), r.Unknowns, r.UnwindHits, r.Merged, r.Wall.Seconds(), r.SolverStats.Time.Seconds(), r.SolverStats.SendTime.Seconds(), r.SolverStats.Bytes/1024, r.SolverStats.GetValueCalls, r.SolverStats.Queries)
 	for _, k := range sortedKeys(r.Unsupported) {
 		fmt.Printf("   UNSUPPORTED x%d: %s\n", r.Unsupported[k], k)
 	}
